@@ -8,6 +8,7 @@ pub mod resolve;
 pub mod seeds;
 pub mod tlv;
 pub mod token;
+pub mod varlen;
 
 pub fn generate(prop: &str, tier: &str, rng: &mut Rng) -> Vec<String> {
     match prop {
@@ -15,6 +16,7 @@ pub fn generate(prop: &str, tier: &str, rng: &mut Rng) -> Vec<String> {
         "C17" => token::generate_c17(tier, rng),
         "C13" => pod::generate_c13(tier, rng),
         "C18" => disc::generate(tier, rng),
+        "C15" => varlen::generate(tier, rng),
         "C05" => resolve::generate_c05(tier, rng),
         "C06" | "C08" => resolve::generate_c06_c08(prop, tier, rng),
         "C07" => resolve::generate_c07(tier, rng),
@@ -35,6 +37,7 @@ pub fn run(prop: &str, cases: &[String]) -> RunOut {
         "C16" | "C17" => token::run(prop, cases),
         "C13" | "C14" => pod::run(prop, cases),
         "C18" => disc::run(cases),
+        "C15" => varlen::run(cases),
         "C05" | "C06" | "C07" | "C08" | "C12" => resolve::run(prop, cases),
         "C01" | "C02" | "C03" | "C04" => tlv::run(prop, cases),
         "C09" | "C10" => listview::run(prop, cases),
